@@ -128,6 +128,7 @@ pub fn cmd_record(args: &HashMap<String, String>) -> i32 {
     let seed: u64 = args.get("seed").map(|s| s.parse().unwrap()).unwrap_or(1);
     let crash_pct: u32 = args.get("crash").map(|s| s.parse().unwrap()).unwrap_or(0);
     let powerloss_pct: u32 = args.get("powerloss").map(|s| s.parse().unwrap()).unwrap_or(0);
+    let mut nrace = 0usize;
     let mut npower = 0usize;
     let mut npower_changed = 0usize;
     let small = args.contains_key("small");
@@ -290,7 +291,29 @@ pub fn cmd_record(args: &HashMap<String, String>) -> i32 {
             } else if r < 78 {
                 catch(|| enact_one_guarded(d)).map_err(|p| format!("panic: {p}"))?.map_err(|e| format!("enact: {e}"))?;
             } else if r < 86 {
-                catch(|| d.clean_logs()).map_err(|p| format!("panic: {p}"))?.map_err(|e| format!("clean_logs: {e}"))?;
+                // one time in three the commit worker's step (enact of the next records) is run INSIDE the
+                // clean-up, right after its table flush and before it truncates logs (the hook sink is the
+                // yield point): logs that become dirty there were not covered by that flush
+                let race = rng.gen::<u32>() % 3 == 0 && d.verif_pipeline_sizes().2 < 3;
+                if race {
+                    // SAFETY: the callback is removed before `d` goes out of scope (a few lines below)
+                    let dp: &'static Db = unsafe { std::mem::transmute::<&Db, &'static Db>(d) };
+                    let done = Arc::new(AtomicBool::new(false));
+                    rec.set_callback(Some(Arc::new(move |name: &str, _a: &[u64], _pos: usize| {
+                        if name == "TablesFlushed" && !done.swap(true, Ordering::SeqCst) {
+                            let _ = catch(|| {
+                                let _ = dp.verif_enact_one();
+                                let _ = dp.verif_enact_one();
+                            });
+                        }
+                    })));
+                    nrace += 1;
+                }
+                let r = catch(|| d.clean_logs());
+                if race {
+                    rec.set_callback(None);
+                }
+                r.map_err(|p| format!("panic: {p}"))?.map_err(|e| format!("clean_logs: {e}"))?;
                 if d.verif_pipeline_sizes().0 == 0 {
                     dump_events(d, &u, &rec);
                 }
@@ -542,7 +565,7 @@ pub fn cmd_record(args: &HashMap<String, String>) -> i32 {
     let events = rec.take();
     write_trace(&args["out"], &events);
     let summary = json!({"events": events.len(), "crashes": ncrash, "restarts": nrestart, "problems": problems, "universe": u.describe(), "init_rid": init_rid, "init_cid": init_cid, "nvals": u.nvals, "values_swept": SWEEP.load(Ordering::SeqCst),
-                         "powerloss_images": npower, "powerloss_images_with_data_dropped": npower_changed});
+                         "enact_inside_cleanup": nrace, "powerloss_images": npower, "powerloss_images_with_data_dropped": npower_changed});
     println!("{}", summary);
     let _ = std::fs::remove_dir_all(&root);
     if problems.is_empty() {
